@@ -80,6 +80,89 @@ def readonly_uses(obj, rng, used):
             used.add('read-raised:' + op)
 
 
+CONSTRUCTED_KINDS = ('seq', 'set', 'seqof', 'setof', 'choice')
+
+
+def perturb(T, v, rng, o):
+    """Another value of T with the same shape as v (same list lengths, no OPTIONAL member that v lacks), from which v
+    can be reached by assignments alone."""
+    Bt = U.base_of(T)
+    k = Bt[0]
+    if k in ('seq', 'set'):
+        out = {}
+        for name, ft, pres, dv in Bt[1]:
+            if name not in v:
+                continue
+            if pres == 'opt' and rng.random() < 0.2:
+                continue
+            out[name] = perturb(ft, v[name], rng, o)
+        return out
+    if k in ('seqof', 'setof'):
+        return [perturb(Bt[1], x, rng, o) for x in v]
+    if k == 'choice':
+        if len(Bt[1]) > 1 and rng.random() < 0.5:
+            alt, at = rng.choice([a for a in Bt[1] if a[0] != v[0]])
+            return (alt, U.gen_value(rng, at, o, small=True))
+        return (v[0], perturb(dict(Bt[1])[v[0]], v[1], rng, o))
+    if k == 'any' or rng.random() < 0.5:
+        return v
+    return U.gen_value(rng, T, o, small=True)
+
+
+def reachable(T, v0, v):
+    """Can a holder of v0 be turned into a holder of v by assignments alone (members cannot be taken away, lists
+    cannot shrink)?"""
+    Bt = U.base_of(T)
+    k = Bt[0]
+    if k in ('seq', 'set'):
+        for name, ft, pres, dv in Bt[1]:
+            if name in v0 and name not in v:
+                return False
+            if name in v0 and name in v and U.base_of(ft)[0] in ('seq', 'set', 'seqof', 'setof') \
+                    and not reachable(ft, v0[name], v[name]):
+                return False
+        return True
+    if k in ('seqof', 'setof'):
+        return len(v0) == len(v) and all(
+            U.base_of(Bt[1])[0] not in ('seq', 'set', 'seqof', 'setof') or reachable(Bt[1], a, b) for a, b in zip(v0, v))
+    return True
+
+
+def rework(obj, T, v0, v, rng):
+    """Turn obj (holding v0) into a holder of v by in-place assignments, descending into members that are already
+    there instead of replacing them wherever that is possible."""
+    Bt = U.base_of(T)
+    k = Bt[0]
+    if k in ('seq', 'set'):
+        for name, ft, pres, dv in Bt[1]:
+            if name not in v:
+                continue
+            fk = U.base_of(ft)[0]
+            if name in v0 and fk in CONSTRUCTED_KINDS and rng.random() < 0.75 and reachable(ft, v0[name], v[name]):
+                rework(obj[name], ft, v0[name], v[name], rng)
+            elif name not in v0 or U.canon(ft, v0[name]) != U.canon(ft, v[name]) or rng.random() < 0.3:
+                sub = B.value(ft, v[name], sch=obj.componentType[name].asn1Object)
+                if rng.random() < 0.5:
+                    obj[name] = sub
+                else:
+                    obj.setComponentByPosition([f[0] for f in Bt[1]].index(name), sub)
+    elif k in ('seqof', 'setof'):
+        ek = U.base_of(Bt[1])[0]
+        for i, x in enumerate(v):
+            # (what position i holds is read back: a SET OF was filled in some other order, or decoded)
+            x0 = B.absval(obj[i], Bt[1])
+            if ek in CONSTRUCTED_KINDS and rng.random() < 0.75 and reachable(Bt[1], x0, x):
+                rework(obj[i], Bt[1], x0, x, rng)
+            elif U.canon(Bt[1], x0) != U.canon(Bt[1], x) or rng.random() < 0.3:
+                obj[i] = B.value(Bt[1], x, sch=obj.componentType)
+    elif k == 'choice':
+        at = dict(Bt[1])[v[0]]
+        if v0[0] == v[0] and U.base_of(at)[0] in CONSTRUCTED_KINDS and rng.random() < 0.75 and reachable(at, v0[1], v[1]):
+            rework(obj.getComponent(), at, v0[1], v[1], rng)
+        else:
+            obj.setComponentByName(v[0], B.value(at, v[1], sch=obj.componentType[v[0]].asn1Object))
+
+
 def make_history(bt, rng, kind, used):
     T, v = bt.T, bt.v
     if kind == 'route':
@@ -96,6 +179,25 @@ def make_history(bt, rng, kind, used):
         x, ch = R.ber_variant(T, v, rng)
         obj, rest = ber_decoder.decode(x, asn1Spec=bt.schema)
         used.add('route:decode-variant')
+    elif kind == 'rework':
+        # another value of the same shape is built (or decoded), used - encoded with every codec, printed, compared -
+        # and then turned into v by assignments in place: whatever the earlier uses left on the object (memoised tags,
+        # sort keys, encodings) describes a value it no longer holds
+        o = C.opts_for('quick', rng)
+        v0 = perturb(T, v, rng, o)
+        if rng.random() < 0.3:
+            obj, rest = ber_decoder.decode(R.ber_variant(T, v0, rng)[0], asn1Spec=bt.schema)
+        else:
+            obj = B.value(T, v0, route=B.Route(rng))
+        readonly_uses(obj, rng, used)
+        der_encoder.encode(obj)
+        if rng.random() < 0.5:
+            cer_encoder.encode(obj)
+        v0 = B.absval(obj, T)       # (as the object holds it: SET OF members sit in the order they were stored)
+        if not reachable(T, v0, v):
+            raise ValueError('not reachable by assignments')
+        rework(obj, T, v0, v, rng)
+        used.add('route:rework')
     else:
         obj = B.value(T, v)
         used.add('route:plain')
@@ -112,6 +214,8 @@ def check_case(res, T, v, rng, bt=None):
     used = set()
     group = [('plain', bt.obj)]
     kinds = ['route', 'route', 'clone', 'decode-variant', 'route', 'clone', 'decode-variant']
+    if U.base_of(T)[0] in CONSTRUCTED_KINDS:
+        kinds += ['rework', 'rework']
     for kind in rng.sample(kinds, rng.randint(3, 7)):
         try:
             obj = make_history(bt, rng, kind, used)
